@@ -81,18 +81,44 @@ BinLayoutOK(f) ==
   /\ f.len % 8 = 0 \/ f.sdt = 4 \/ f.sit = 4
 
 (***************************************************************************)
+(* Values: integer numerators over Den, plus the distinguished IEEE value   *)
+(* NegZero (-0): EQUAL to 0 in value, but a different bit pattern.  Binary   *)
+(* modes are bit-identical, so a stored -0 stays a stored -0; the text modes *)
+(* promise equality to the printed precision only, so they are compared      *)
+(* through Canon (a stored +0 / -0 is a STORED ENTRY in either case: the     *)
+(* pattern - stored index set, used_elements - is part of the state).        *)
+(***************************************************************************)
+NegZero == 999999937
+Canon(v) == IF v = NegZero THEN 0 ELSE v
+CanonSeq(s) == [k \in 1..Len(s) |-> Canon(s[k])]
+CanonRep(rep) == [rp |-> rep.rp, ci |-> rep.ci, va |-> CanonSeq(rep.va)]
+IsZero(v) == Canon(v) = 0
+
+(***************************************************************************)
 (* Text formats                                                              *)
 (***************************************************************************)
 HdrArray == "%%MatrixMarket matrix array real general"
 HdrCoord == "%%MatrixMarket matrix coordinate real general"
+HdrCoordSym == "%%MatrixMarket matrix coordinate real symmetric"
 L(i, x) == [i |-> i, x |-> x]
 ExpandBlocks(cc) == \* scalar CSR arrays of a BCSR container: every stored block is written completely
   LET r == cc.rep
       Blk(i, k) == {<<(i - 1) * cc.bh + y, r.ci[k] * cc.bw + x>> : y \in 1..cc.bh, x \in 1..cc.bw}
       P == UNION {UNION {Blk(i, k) : k \in (r.rp[i] + 1)..r.rp[i+1]} : i \in 1..cc.m}
   IN  CSROf(cc.m * cc.bh, cc.n * cc.bw, AbsBCSR(cc.m, cc.n, cc.bh, cc.bw, r), P)
+\* EVERY stored entry is one line - also an entry whose value is (+/-) 0
 CoordLines(rep, mm) ==
   Flatten([i \in 1..mm |-> [k \in 1..(rep.rp[i+1] - rep.rp[i]) |-> L(<<i, rep.ci[rep.rp[i] + k] + 1>>, <<rep.va[rep.rp[i] + k]>>)]])
+\* the symmetric coordinate format lists the stored entries of the lower triangle (row >= column) only
+LowerLines(rep, mm) ==
+  Flatten([i \in 1..mm |-> SelectSeq([k \in 1..(rep.rp[i+1] - rep.rp[i]) |-> L(<<i, rep.ci[rep.rp[i] + k] + 1>>, <<rep.va[rep.rp[i] + k]>>)],
+                                     LAMBDA l : l.i[1] >= l.i[2])])
+\* write_out(fm_mtx, file, symmetric = true) is defined for square matrices with a symmetric pattern and symmetric values
+\* (+0 and -0 are the same VALUE)
+SymCSR(mm, nn, rep) ==
+  /\ mm = nn
+  /\ LET P == PatCSR(mm, rep)  A == AbsCSR(mm, nn, rep)
+     IN  \A e \in P : <<e[2], e[1]>> \in P /\ Canon(A[e[1]][e[2]]) = Canon(A[e[2]][e[1]])
 TextFile(cc, mode) ==
   LET r == cc.rep IN
   CASE mode = "exp" -> [fmt |-> "text", hdr |-> "", lines |-> [k \in 1..Len(r.va) |-> L(<<>>, <<r.va[k]>>)]]
@@ -104,6 +130,8 @@ TextFile(cc, mode) ==
          [fmt |-> "text", hdr |-> HdrArray, lines |-> <<L(<<cc.m, cc.n, cc.m * cc.n>>, <<>>)>> \o [k \in 1..Len(r.va) |-> L(<<>>, <<r.va[k]>>)]]
     [] mode = "mtx" /\ cc.kind = "csr" ->
          [fmt |-> "text", hdr |-> HdrCoord, lines |-> <<L(<<cc.m, cc.n, Len(r.ci)>>, <<>>)>> \o CoordLines(r, cc.m)]
+    [] mode = "mtxsym" /\ cc.kind = "csr" ->
+         [fmt |-> "text", hdr |-> HdrCoordSym, lines |-> <<L(<<cc.m, cc.n, Len(LowerLines(r, cc.m))>>, <<>>)>> \o LowerLines(r, cc.m)]
     [] mode = "mtx" /\ cc.kind = "bcsr" ->       \* block after block, each block row-major (coordinate entries may come in any order)
          [fmt |-> "text", hdr |-> HdrCoord,
           lines |-> <<L(<<cc.m * cc.bh, cc.n * cc.bw, Len(r.ci) * cc.bh * cc.bw>>, <<>>)>> \o
@@ -112,26 +140,36 @@ TextFile(cc, mode) ==
                          LET y == ((e - 1) \div cc.bw) + 1  x == ((e - 1) % cc.bw) + 1  q == r.rp[i] + k
                          IN  L(<<(i - 1) * cc.bh + y, r.ci[q] * cc.bw + x>>, <<r.va[q][y][x]>>)]])])]
 
-\* the readers: an abstract view [m, n, ...] reconstructed from the lines only
+\* the readers: an abstract view [m, n, ...] reconstructed from the lines only.  The number of stored entries (`used`) is the
+\* number of entry lines; the values are the values of the tokens (Canon: the sign of a zero is not part of a text round trip)
 ReadText(kind, mode, bs, f) ==
   LET ls == f.lines IN
-  CASE mode = "exp" -> [m |-> Len(ls) \div bs, va |-> [k \in 1..Len(ls) |-> ls[k].x[1]]]
-    [] mode = "mtx" /\ kind \in {"dv", "dvb"} -> [m |-> ls[1].i[1] \div bs, va |-> [k \in 1..(Len(ls) - 1) |-> ls[k+1].x[1]]]
+  CASE mode = "exp" -> [m |-> Len(ls) \div bs, va |-> [k \in 1..Len(ls) |-> Canon(ls[k].x[1])]]
+    [] mode = "mtx" /\ kind \in {"dv", "dvb"} -> [m |-> ls[1].i[1] \div bs, va |-> [k \in 1..(Len(ls) - 1) |-> Canon(ls[k+1].x[1])]]
     [] mode = "mtx" /\ kind = "sv" ->
-         [m |-> ls[1].i[1], idx |-> [k \in 1..(Len(ls) - 1) |-> ls[k+1].i[1] - 1], va |-> [k \in 1..(Len(ls) - 1) |-> ls[k+1].x[1]]]
-    [] mode = "mtx" /\ kind = "dm" -> [m |-> ls[1].i[1], n |-> ls[1].i[2], va |-> [k \in 1..(Len(ls) - 1) |-> ls[k+1].x[1]]]
-    [] mode = "mtx" /\ kind \in {"csr", "bcsr"} ->       \* (a BCSR MatrixMarket file is read by the CSR reader)
+         [m |-> ls[1].i[1], used |-> Len(ls) - 1, idx |-> [k \in 1..(Len(ls) - 1) |-> ls[k+1].i[1] - 1], va |-> [k \in 1..(Len(ls) - 1) |-> Canon(ls[k+1].x[1])]]
+    [] mode = "mtx" /\ kind = "dm" -> [m |-> ls[1].i[1], n |-> ls[1].i[2], va |-> [k \in 1..(Len(ls) - 1) |-> Canon(ls[k+1].x[1])]]
+    [] mode \in {"mtx", "mtxsym"} /\ kind \in {"csr", "bcsr"} ->       \* (a BCSR MatrixMarket file is read by the CSR reader)
          LET mm == ls[1].i[1]  nn == ls[1].i[2]
              K  == 2..Len(ls)
-             P  == {<<ls[k].i[1], ls[k].i[2]>> : k \in K}
+             Q  == {<<ls[k].i[1], ls[k].i[2]>> : k \in K}
+             \* a symmetric file: every listed off-diagonal entry stands for its mirror image as well
+             P  == IF f.hdr = HdrCoordSym THEN Q \cup {<<e[2], e[1]>> : e \in Q} ELSE Q
+             Src(i, j) == IF <<i, j>> \in Q THEN <<i, j>> ELSE <<j, i>>
              D  == [i \in 1..mm |-> [j \in 1..nn |->
-                      IF <<i, j>> \in P THEN ls[CHOOSE k \in K : ls[k].i = <<i, j>>].x[1] ELSE 0]]
-         IN  [m |-> mm, n |-> nn, rep |-> CSROf(mm, nn, D, P)]
+                      IF <<i, j>> \in P THEN Canon(ls[CHOOSE k \in K : ls[k].i = Src(i, j)].x[1]) ELSE 0]]
+         IN  [m |-> mm, n |-> nn, used |-> Cardinality(P), rep |-> CSROf(mm, nn, D, P)]
 AbsView(cc, mode) ==
-  CASE cc.kind \in {"dv", "dvb"} -> [m |-> cc.m, va |-> cc.rep.va]
-    [] cc.kind = "sv" -> [m |-> cc.m, idx |-> cc.rep.idx, va |-> cc.rep.va]
-    [] cc.kind = "dm" -> [m |-> cc.m, n |-> cc.n, va |-> cc.rep.va]
-    [] cc.kind = "csr" -> [m |-> cc.m, n |-> cc.n, rep |-> cc.rep]
-    [] cc.kind = "bcsr" -> [m |-> cc.m * cc.bh, n |-> cc.n * cc.bw, rep |-> ExpandBlocks(cc)]
+  CASE cc.kind \in {"dv", "dvb"} -> [m |-> cc.m, va |-> CanonSeq(cc.rep.va)]
+    [] cc.kind = "sv" -> [m |-> cc.m, used |-> Len(cc.rep.idx), idx |-> cc.rep.idx, va |-> CanonSeq(cc.rep.va)]
+    [] cc.kind = "dm" -> [m |-> cc.m, n |-> cc.n, va |-> CanonSeq(cc.rep.va)]
+    [] cc.kind = "csr" -> [m |-> cc.m, n |-> cc.n, used |-> Len(cc.rep.ci), rep |-> CanonRep(cc.rep)]
+    [] cc.kind = "bcsr" -> [m |-> cc.m * cc.bh, n |-> cc.n * cc.bw, used |-> Len(cc.rep.ci) * cc.bh * cc.bw, rep |-> CanonRep(ExpandBlocks(cc))]
+\* the number of stored entries of a container
+StoredCount(cc) ==
+  CASE cc.kind \in {"dv", "dvb", "dm"} -> Len(cc.rep.va)
+    [] cc.kind = "sv" -> Len(cc.rep.idx)
+    [] cc.kind = "csr" -> Len(cc.rep.ci)
+    [] cc.kind = "bcsr" -> Len(cc.rep.ci) * cc.bh * cc.bw
 
 =============================================================================
